@@ -6,19 +6,25 @@ from BPTK_Py import Model, bptk
 from BPTK_Py.server import BptkServer
 import BPTK_Py.server.bptkServer as srvmod
 
-DESTROYED = []
+DESTROYED = []      # serial numbers of destroyed bptk objects (NOT id(): python reuses the id of a freed object)
+_SERIAL = [0]
+
+SM = ["sm"]          # name of the scenario manager the factory registers (a harness may switch it, e.g. to "2024")
+RUNSPEC = [1.0, 10.0, 1.0]
 
 def make_bptk():
-    m = Model(starttime=1.0, stoptime=10.0, dt=1.0, name="m")
+    m = Model(starttime=RUNSPEC[0], stoptime=RUNSPEC[1], dt=RUNSPEC[2], name="m")
     s = m.stock("s"); f = m.flow("f"); c = m.constant("c")
     s.initial_value = 0.0; c.equation = 1.0; f.equation = c; s.equation = f
     b = bptk()
     b.register_model(m)
-    b.register_scenario_manager({"sm": {"model": m}})
-    b.register_scenarios(scenario_manager="sm", scenarios={"base": {"constants": {"c": 1.0}}})
+    b.register_scenario_manager({SM[0]: {"model": m}})
+    b.register_scenarios(scenario_manager=SM[0], scenarios={"base": {"constants": {"c": 1.0}}})
     orig = b.destroy
+    _SERIAL[0] += 1
+    b._verif_serial = _SERIAL[0]
     def destroy(orig=orig, b=b):
-        DESTROYED.append(id(b)); return orig()
+        DESTROYED.append(b._verif_serial); return orig()
     b.destroy = destroy
     return b
 
@@ -46,7 +52,7 @@ def start(client, headers=None, timeout=None):
     return json.loads(r.data)["instance_uuid"]
 
 def begin(client, u, headers=None):
-    return client.post("/%s/begin-session" % u, json=BEGIN, headers=headers or {})
+    return client.post("/%s/begin-session" % u, json=dict(BEGIN, scenario_managers=[SM[0]]), headers=headers or {})
 
 def digest(app):
     """server-side state that a refused request must not change"""
@@ -54,7 +60,7 @@ def digest(app):
     for k, rec in app._instance_manager._instances.items():
         ss = rec["instance"].session_state
         d[k] = None if ss is None else (ss.get("step"), ss.get("lock"), len(ss.get("results_log", {}) or {}), repr(ss.get("settings_log"))[:200])
-    sc = app._bptk.get_scenario("sm", "base")
+    sc = app._bptk.get_scenario(SM[0], "base")
     return (d, dict(sc.constants), len(DESTROYED))
 
 UNIT_SECONDS = {"weeks": 604800, "days": 86400, "hours": 3600, "minutes": 60, "seconds": 1, "milliseconds": 0.001, "microseconds": 0.000001}
@@ -62,7 +68,19 @@ UNIT_SECONDS = {"weeks": 604800, "days": 86400, "hours": 3600, "minutes": 60, "s
 def run(case):
     """case: list of ops  ('create', timeout_dict) | ('advance', seconds) | ('access', idx, kind) | ('metrics',)"""
     del DESTROYED[:]
-    app = make_app(fake_clock=True)
+    import tempfile, shutil
+    tmpd = None
+    use_adapter = bool(case) and case[0] == ("adapter",)
+    if use_adapter:
+        from BPTK_Py.externalstateadapter import FileAdapter
+        tmpd = tempfile.mkdtemp(prefix="c17_")
+    try:
+        return _run(case, make_app(fake_clock=True, adapter=(FileAdapter(False, tmpd) if use_adapter else None)), use_adapter)
+    finally:
+        if tmpd:
+            shutil.rmtree(tmpd, ignore_errors=True)
+
+def _run(case, app, use_adapter):
     client = app.test_client()
     ids = []          # created instance ids
     last = {}         # id -> clock value of creation / last access
@@ -94,11 +112,15 @@ def run(case):
     held = []
     held_ids = set()
     for step, op in enumerate(case):
+        if op[0] == "adapter":
+            continue
         if op[0] == "create":
             u = start(client, timeout=op[1]); ids.append(u); last[u] = now()
             tmo[u] = sum(UNIT_SECONDS[k] * v for k, v in op[1].items())
-            objs[u] = id(app._instance_manager._instances[u]["instance"])
+            objs[u] = app._instance_manager._instances[u]["instance"]._verif_serial
             begin(client, u); last[u] = now()
+            if use_adapter:
+                client.post("/%s/run-step" % u); last[u] = now()        # a stepping request externalises the state
             bad = expect(step)
         elif op[0] == "advance":
             FakeClock.advance(op[1]); bad = None
@@ -134,10 +156,19 @@ def run(case):
             path = {"keep": "/%s/keep-alive", "step": "/%s/run-step", "results": "/%s/session-results"}[op[2]] % u
             was_expired = (u in gone) or expired(u)
             r = client.open(path, method="GET" if op[2] == "results" else "POST")
-            if u in gone:
+            if u in gone and use_adapter and op[2] != "keep":
+                # its state was externalised: the request restores it transparently, and it lives on from this access
+                bad = None
+                if not (200 <= r.status_code < 300):
+                    bad = "step %d: instance %d had timed out with its state externalised; the next request must restore it, it answered %d" % (step, ids.index(u), r.status_code)
+                else:
+                    gone.discard(u); last[u] = now()
+                    objs[u] = app._instance_manager._instances[u]["instance"]._verif_serial
+                    bad = expect(step)
+            elif u in gone:
                 # the id is no longer known: the request is refused and (not being an access to any instance) sweeps nothing
                 bad = None
-                if 200 <= r.status_code < 300:
+                if 200 <= r.status_code < 300 and not use_adapter:
                     bad = "step %d: timed-out instance %d answered %d" % (step, ids.index(u), r.status_code)
             elif was_expired:
                 # expired but not swept yet: this access re-stamps it first, so it either survives or is refused
@@ -155,7 +186,7 @@ def run(case):
             return bad
     return None
 
-case = [('create', {'weeks': 3}), ('create', {'hours': 3}), ('create', {'hours': 1, 'minutes': 5}), ('advance', 1300000), ('advance', 3601), ('advance', 1), ('advance', 5e-07), ('create', {'seconds': 1}), ('create', {'seconds': 2}), ('advance', 604800), ('access', 0, 'keep'), ('advance', 61)]
+case = [('adapter',), ('create', {'days': 1}), ('create', {'microseconds': 2}), ('access', 5, 'step'), ('hold', 3), ('access', 2, 'keep'), ('advance', 1800), ('access', 4, 'results'), ('advance', 59), ('access', 5, 'results'), ('advance', 59), ('advance', 61), ('metrics', False), ('access', 0, 'results'), ('access', 1, 'keep')]
 bad = run(case)
 print("timeline:", case)
 print("FAIL: " + bad if bad else "PASS")
